@@ -218,7 +218,9 @@ def enclosing_fn(lines, i):
 # --------------------------------------------------------------------------- Verus
 
 def run_verus(path, rlimit=None, seed=None, threads=8, extra=None, timeout=1800):
-    cmd = ["verus", path, "--output-json", "--time", "--num-threads", str(threads), "--multiple-errors", "5"]
+    cmd = ["verus", path, "--output-json", "--time", "--num-threads", str(threads)]
+    if not (extra and "--multiple-errors" in extra):
+        cmd += ["--multiple-errors", "5"]
     if rlimit:
         cmd += ["--rlimit", str(rlimit)]
     if seed is not None:
@@ -277,3 +279,153 @@ def classify(diag):
     if any(v in m for v in VERIFICATION_FAILURES):
         return "verification"
     return "other"
+
+
+# --------------------------------------------------------------------------- helpers for the driver
+
+IMPL_RE = re.compile(r"^\s*impl(?:<[^>]*>)?\s+(?:[\w:]+(?:<[^>]*>)?\s+for\s+)?([\w:]+)")
+MOD_RE = re.compile(r"^\s*(?:pub\s+)?mod\s+(\w+)\s*\{")
+
+
+def indent_of(line):
+    return len(line) - len(line.lstrip())
+
+
+def enclosing_fn(lines, i):
+    """qualified name (`Type::method`, `module::name` or `name`) of the function containing line i"""
+    i = min(i, len(lines) - 1)
+    while i >= 0:
+        s = lines[i].strip()
+        m = FN_RE.search(lines[i])
+        if m and not s.startswith("//") and re.match(r"^(pub(\([a-z]+\))? )?(const )?(open |closed |uninterp |broadcast |unsafe )*(spec |proof |axiom |exec )?(unsafe )?fn\b", s):
+            name = m.group(1)
+            ind = indent_of(lines[i])
+            j = i - 1
+            while j >= 0 and ind > 0:
+                lj = lines[j]
+                if lj.strip() and indent_of(lj) < ind:
+                    im = IMPL_RE.match(lj)
+                    if im:
+                        return f"{im.group(1).split('::')[-1]}::{name}"
+                    mm = MOD_RE.match(lj)
+                    if mm:
+                        return f"{mm.group(1)}::{name}"
+                    if indent_of(lj) == 0 and not lj.strip().startswith(("//", "#", ")", "}")):
+                        break
+                j -= 1
+            return name
+        i -= 1
+    return None
+
+
+def qualify(functions, name):
+    return name
+
+
+def function_breakdown(js):
+    out = []
+    try:
+        mods = js["times-ms"]["smt"]["smt-run-module-times"]
+    except Exception:
+        return out
+    for m in mods:
+        for f in m.get("function-breakdown", []):
+            name = f["function"].split("::", 1)[1] if "::" in f["function"] else f["function"]
+            mode = f.get("mode:", f.get("mode", ""))
+            out.append({"function": name, "mode": mode, "ms": f.get("time", 0), "ok": bool(f.get("success", False))})
+    return out
+
+
+TRUST_PATTERNS = [
+    ("assume_specification", re.compile(r"\bassume_specification\b")),
+    ("external_body", re.compile(r"external_body")),
+    ("axiom fn", re.compile(r"\baxiom fn\b")),
+    ("assume(", re.compile(r"\bassume\s*\(")),
+    ("admit(", re.compile(r"\badmit\s*\(")),
+    ("external", re.compile(r"#\[verifier::external\]")),
+    ("uninterp spec fn", re.compile(r"\buninterp spec fn\b")),
+]
+
+
+def scan_trusted(text):
+    """mechanical scan of the generated unit for everything that is assumed rather than proved"""
+    counts = {}
+    items = []
+    lines = text.split("\n")
+    for i, line in enumerate(lines):
+        s = line.strip()
+        if s.startswith("//"):
+            continue
+        for name, rx in TRUST_PATTERNS:
+            if rx.search(s):
+                counts[name] = counts.get(name, 0) + 1
+                if name in ("assume_specification", "axiom fn"):
+                    if name == "axiom fn":
+                        m = re.search(r"axiom fn\s+(\w+)", s)
+                        items.append(f"axiom fn: {m.group(1) if m else s[:80]}")
+                    else:
+                        items.append("assume_specification: " + s.split("](")[0].rsplit("[ ", 1)[-1].strip()[:100])
+                elif name == "external_body":
+                    nxt = next((lines[j].strip() for j in range(i + 1, min(i + 4, len(lines))) if "fn " in lines[j]), "")
+                    m = re.search(r"fn\s+(\w+)", nxt)
+                    items.append(f"external_body: {m.group(1) if m else nxt[:60]}")
+                elif name in ("assume(", "admit("):
+                    items.append(f"{name} in {enclosing_fn(lines, i)}")
+    return {"counts": counts, "items": sorted(set(items))}
+
+
+HEADFN_RE = re.compile(r"^\s*(pub(\([a-z]+\))? )?(const )?(unsafe )?fn\s+(\w+)")
+
+
+def make_canary(text):
+    """vacuity guard: a twin of the unit in which every exec function body starts with assert(false);
+    each of these must FAIL (otherwise the function's precondition is unsatisfiable), and a lemma
+    `ensures false` over the axioms in scope must fail too"""
+    lines = text.split("\n")
+    out = []
+    canaries = []
+    i = 0
+    n = len(lines)
+    skip_next_fn = False
+    while i < n:
+        line = lines[i]
+        out.append(line)
+        s = line.strip()
+        if "external_body" in s and s.startswith("#["):
+            skip_next_fn = True
+        m = HEADFN_RE.match(line)
+        if m and "{" not in s:
+            if skip_next_fn:
+                skip_next_fn = False
+                i += 1
+                continue
+            j = i + 1
+            ok = False
+            while j < n:
+                sj = lines[j].strip()
+                if sj == "{":
+                    ok = True
+                    break
+                if "{" in strip_strings(sj) and not sj.startswith(("requires", "ensures", "invariant", "decreases", "forall", "&&", "||", "==>")) and re.match(r"^(pub |fn |impl |\}|let |for |while |if )", sj):
+                    break
+                j += 1
+            if ok:
+                for k in range(i + 1, j + 1):
+                    out.append(lines[k])
+                out.append(" " * (indent_of(lines[j]) + 4) + "proof { assert(false); } // canary")
+                canaries.append({"fn": enclosing_fn(lines, i), "line": len(out)})
+                i = j + 1
+                continue
+        elif m:
+            skip_next_fn = False
+        i += 1
+    # axiom-consistency canary, inserted before the closing of verus!{}
+    for idx in range(len(out) - 1, -1, -1):
+        if out[idx].strip().startswith("} // verus!"):
+            out.insert(idx, "proof fn __canary_axioms() ensures false { }")
+            for c in canaries:
+                if c["line"] > idx:
+                    c["line"] += 1
+            canaries.append({"fn": "__canary_axioms", "line": idx + 1})
+            break
+    return "\n".join(out), canaries
